@@ -221,6 +221,9 @@ SOLVE_CASES = [
     # a partition created, and points decomposed in it, BETWEEN two solves
     dict(L=[1.0, 2.0], step="block", second="new_partition"),
     dict(L=[1.0], step="gd", second="new_partition"),
+    # loud solves (the library's default verbosity, and the highest)
+    dict(L=[1.0, 2.0], step="block", second="new_point", verbose=1),
+    dict(L=[1.0, 2.0, 4.0], step="gd", second="same", verbose=2),
 ]
 
 
@@ -306,7 +309,7 @@ def judge_solve(case):
                 newp.get_block(x1, 0)
                 newp.get_block(g0, 2)
         with REC.recording():
-            r = solving.solve(p)
+            r = solving.solve(p, verbose=case.get("verbose", 0))
         if r["exc"] is not None:
             probs.append(("solve:raised:%s" % type(r["exc"]).__name__, str(r["exc"])[:150]))
             break
